@@ -205,4 +205,27 @@ def git_pack(req):
         shutil.rmtree(d, ignore_errors=True)
 
 
-HANDLERS = dict(helpers=helpers, idx=idx, pack_roundtrip=pack_roundtrip, git_pack=git_pack)
+def store_add_objects(req):
+    """DiskObjectStore.add_objects (its own pack writing path) with repeated objects; git index-pack --strict on the result"""
+    from dulwich.object_store import DiskObjectStore
+    d = tempfile.mkdtemp(prefix="verif-addobj-", dir=os.environ.get("VERIF_SCRATCH") or None)
+    try:
+        objs = _objects(req["blobs"])
+        st = DiskObjectStore.init(os.path.join(d, "objects"))
+        try:
+            st.add_objects([(o, None) for o in objs])
+            packs = list(st.packs)
+            res = {"packs": len(packs), "entries": sum(len(list(p.index.iterentries())) for p in packs), "unique": len({o.id for o in objs}),
+                   "readable": all(st[o.id].data == o.data for o in objs)}
+            for p in packs:
+                r = _git(["index-pack", "--strict", "-o", os.path.join(d, "x.idx"), p._basename + ".pack"], d)
+                res["git_index_pack"] = r.returncode
+                res["git_err"] = r.stderr.decode("latin1")[-160:]
+            return res
+        finally:
+            st.close()
+    finally:
+        shutil.rmtree(d, ignore_errors=True)
+
+
+HANDLERS = dict(helpers=helpers, idx=idx, pack_roundtrip=pack_roundtrip, git_pack=git_pack, store_add_objects=store_add_objects)
